@@ -79,7 +79,15 @@ func hEnvelope(creds []vc.VerifiableCredential) Envelope {
 // carry the class of the pick-without-max panic are not examined further for the other two classes (keeps
 // the (site, class) identities of the findings apart): false.
 func hWitnessClass(def PresentationDefinition, creds []vc.VerifiableCredential, duplicate bool) bool {
-	if !duplicate && !hSharedCredential(def, creds) {
+	class := ""
+	switch {
+	case duplicate:
+		class = "descriptor map names an input descriptor twice"
+	case len(def.InputDescriptors) == 0 && len(def.SubmissionRequirements) > 0:
+		class = "submission requirements without input descriptors"
+	case hSharedCredential(def, creds):
+		class = "a credential satisfies several descriptors"
+	default:
 		return true
 	}
 	for _, r := range def.SubmissionRequirements {
@@ -88,11 +96,7 @@ func hWitnessClass(def PresentationDefinition, creds []vc.VerifiableCredential, 
 			return false
 		}
 	}
-	if duplicate {
-		vClass("descriptor map names an input descriptor twice")
-	} else {
-		vClass("a credential satisfies several descriptors")
-	}
+	vClass(class)
 	return true
 }
 
@@ -122,9 +126,8 @@ func hCheckAccepted(id string, def PresentationDefinition, presented []vc.Verifi
 		if err != nil {
 			continue
 		}
-		v, asked := hKnownVerdict(m.Id, hTag(*c))
-		vAssert(asked && v == hYes, id+".mapped_credential_satisfies_descriptor: accepted although the credential a mapping resolves to does not satisfy the descriptor's constraints (forged/permuted map)")
-		first, _ := hFirstMatch(m.Id, presented)
+		vAssert(hSatisfies(def, def.InputDescriptors[j], *c), id+".mapped_credential_satisfies_descriptor: accepted although the credential a mapping resolves to does not satisfy the descriptor's constraints (forged/permuted map)")
+		first, _ := hFirstMatch(def, m.Id, presented)
 		vAssert(first == hCredIndex(*c), id+".mapped_credential_is_selected_one: accepted although a mapping resolves to another credential than the one matching selects for the descriptor")
 		got, present := result[m.Id]
 		vAssert(present && got.Raw() == c.Raw(), id+".result_is_resolved_credential: the returned credential of a descriptor is not the credential its mapping resolves to")
@@ -163,9 +166,6 @@ func H12e() {
 			break
 		}
 	}
-	if nd == 0 && withReqs {
-		vClass("submission requirements without input descriptors")
-	}
 	switch mode {
 	case 0: // honest wallet
 		vCover("honest")
@@ -183,6 +183,9 @@ func H12e() {
 		}
 		if sign.Empty() {
 			vCover("wallet-empty-selection")
+			if !hWitnessClass(def, wallet, false) {
+				return
+			}
 			vAssert(len(sub.DescriptorMap) == 0, "H12e.empty_selection_no_mappings: a submission without credentials has mappings")
 			vAssert(hDefinitionHolds(def, make([]bool, nd)), "H12e.empty_selection_only_if_nothing_required: the wallet answers with an empty submission although the definition requires credentials")
 			return
@@ -251,6 +254,9 @@ func H12e() {
 		result, err := sub.Validate(Envelope{asInterface: []interface{}{}}, def)
 		if err == nil {
 			vCover("empty-accepted")
+			if !hWitnessClass(def, nil, false) {
+				return
+			}
 			vAssert(len(result) == 0, "H12e.empty_envelope_no_result: credentials out of an empty envelope")
 			vAssert(hDefinitionHolds(def, make([]bool, nd)), "H12e.empty_envelope_only_if_nothing_required: an empty envelope is accepted although the definition requires credentials")
 		}
